@@ -233,6 +233,22 @@ def run_check(prop: str, fn, tier: str, replay: Optional[str] = None) -> int:
     return status
 
 
+def _all_files(cx):
+    """files named by the rules plus every module the run loaded (sa.src cache)"""
+    out = dict(cx.files)
+    try:
+        from . import src as _src
+        for rel, m in _src._CACHE.items():
+            out.setdefault(rel, getattr(m, "sha", ""))
+    except Exception:
+        pass
+    # rules that evaluate parse()/emit() in worker processes read the transpiler whether or not this process loaded it
+    if any(k.endswith(("transpile/parser.py", "transpile/emitter.py")) for k in out):
+        for rel in ("src/Reduino/transpile/parser.py", "src/Reduino/transpile/emitter.py", "src/Reduino/transpile/ast.py"):
+            out.setdefault(rel, "")
+    return out
+
+
 def write_evidence(cx: Check, tier, seed, wall, matched, unknown, err):
     rules = []
     samples = []
@@ -273,7 +289,7 @@ def write_evidence(cx: Check, tier, seed, wall, matched, unknown, err):
             "samples": samples or [{"rule": "-", "instance": "no instance"}],
             "rules": rules,
             "exhaustive": all(r["exhaustive"] for r in rules) if rules else False,
-            "files": cx.files,
+            "files": _all_files(cx),
             "known_findings_matched": [
                 {"rule": f.rule, "key": f.key, "file": f.file, "line": f.line} for f, _ in matched
             ],
